@@ -35,6 +35,7 @@ pub const SUBS: &[SubDef] = &[
     SubDef { prop: "C04", name: "types", oracle: types },
     SubDef { prop: "C04", name: "large", oracle: large },
     SubDef { prop: "C04", name: "huge", oracle: huge },
+    SubDef { prop: "C04", name: "body_direct", oracle: body_direct },
 ];
 
 fn run(ctx: &Ctx) {
@@ -43,6 +44,7 @@ fn run(ctx: &Ctx) {
     ctx.run_enum("types", types, true, "all 256 handshake type codes x 3 body shapes (empty, 5 bytes, a valid body for that code)", (0..768u32).map(|i| vec![(i / 3) as u8, (i % 3) as u8]));
     ctx.run_tape("large", large, ctx.pick(24, 600), 64);
     ctx.run_tape("huge", huge, ctx.pick(2, 48), 64);
+    ctx.run_tape("body_direct", body_direct, ctx.pick(60_000, 300_000), 200);
 }
 
 fn ptr_off(base: &[u8], s: &[u8]) -> usize {
@@ -143,16 +145,65 @@ fn gen_hs_tail(t: &mut Tape) -> Vec<u8> {
 }
 
 fn roundtrip(t: &mut Tape, obs: &mut Obs) -> R {
-    let budget = match t.weighted(&[8, 2, 1]) {
+    let budget = match t.weighted(&[16, 4, 2, 1]) {
         0 => 300,
         1 => 4096,
-        _ => 16000,
+        2 => 16000,
+        _ => 62000,
     };
     let h = gen_hs(t, budget);
     let tail = gen_hs_tail(t);
     let label = format!("{}:{}", h.kind_name(), if h.has_nonempty_var() { "nonempty" } else { "minimal" });
     obs.sample_class(&label, || json!({"kind": h.kind_name(), "value": trunc(&format!("{:?}", h)), "trailing": tail.len()}));
     check_roundtrip(&h, &tail, obs)
+}
+
+/// The public body parsers that take the declared length as an argument, called directly on `body ++ tail` with `len` = the declared
+/// body length: they must return exactly the body-delimited value and leave the tail (never reading beyond the declared length), and a
+/// NewSessionTicket declared shorter than 4 bytes must be rejected whatever follows in the buffer.
+fn body_direct(t: &mut Tape, obs: &mut Obs) -> R {
+    let k = t.pick(&[4usize, 8, 10, 11, 12, 13]);
+    let h = gen_hs_kind(t, k, 200);
+    let body = h.body_bytes();
+    let tail = gen_hs_tail(t);
+    let mut buf = body.clone();
+    buf.extend_from_slice(&tail);
+    let len = body.len();
+    obs.class(h.kind_name());
+    if !tail.is_empty() {
+        obs.nontrivial(fnv64(&buf) ^ k as u64);
+    }
+    let r = guard("handshake body parser (direct)", || {
+        let r = match k {
+            4 => parse_tls_handshake_msg_newsessionticket(&buf, len),
+            8 => parse_tls_handshake_msg_serverkeyexchange(&buf, len),
+            10 => parse_tls_handshake_msg_serverdone(&buf, len),
+            11 => parse_tls_handshake_msg_certificateverify(&buf, len),
+            12 => parse_tls_handshake_msg_clientkeyexchange(&buf, len),
+            _ => parse_tls_handshake_msg_finished(&buf, len),
+        };
+        r.map(|(rem, m)| (ptr_off(&buf, rem), rem.len(), conv::hs(&m))).map_err(|e| format!("{:?}", e.map(|x| x.code)))
+    })?;
+    match r {
+        Ok((off, rl, got)) => {
+            ensure!(got == h, format!("C04:body-direct:{}:value", h.kind_name()), "{} body parser called with len={} on body+{} trailing bytes: got {} expected {}", h.kind_name(), len, tail.len(), trunc(&format!("{:?}", got)), trunc(&format!("{:?}", h)));
+            ensure!(rl == tail.len() && (rl == 0 || off == len), format!("C04:body-direct:{}:remainder", h.kind_name()), "{} body parser: remainder must be the {} bytes after the declared length {}, got {} bytes at offset {}", h.kind_name(), tail.len(), len, rl, off);
+        }
+        Err(e) => return fail(format!("C04:body-direct:{}:rejected", h.kind_name()), format!("{} body parser rejected a well-formed body (len={}): {}", h.kind_name(), len, e)),
+    }
+    // NewSessionTicket declared shorter than 4 bytes, with a longer buffer behind it
+    let short = t.below(4);
+    let extra = t_small(t);
+    let mut b2 = t.bytes(4 + extra);
+    b2.extend_from_slice(&tail);
+    let ok = guard("parse_tls_handshake_msg_newsessionticket", || parse_tls_handshake_msg_newsessionticket(&b2, short).map(|(r, m)| (r.len(), format!("{:?}", m))).ok())?;
+    ensure!(ok.is_none(), "C04:body-direct:ticket-shorter-than-4:accepted", "parse_tls_handshake_msg_newsessionticket(len={}) on a {}-byte buffer returned {:?}: a ticket body shorter than 4 bytes must be rejected", short, b2.len(), ok);
+    obs.sample(json!({"kind": h.kind_name(), "declared_len": len, "trailing": tail.len(), "hex": hex_short(&buf)}));
+    Ok(())
+}
+
+fn t_small(t: &mut Tape) -> usize {
+    t.below(12)
 }
 
 /// bodies around and beyond 16 bits
